@@ -3,7 +3,7 @@ import TTV.Model.Spinner
 import TTV.Spec.C15
 /-! Driver glue for C15: codecs between S-expressions and `Spinner.Input` / `Spinner.Trace`.
 
-Input : `(debug (step …))`, step = `(run T ((d act) …) (op …) term)` | `clear` | `(setsig s h)`, T = n | `neg` (a timeout
+Input : `(debug (step …))`, step = `(run T ((d act) …) (op …) term [n])` (n = `_OBLIGATORY_REACTOR_ITERATIONS`, default 0) | `clear` | `(setsig s h)`, T = n | `neg` (a timeout
         the reactor rejects),
         op = `(later d act)` | `(now act)`, term = `(ret v)` | `(raise e)` | `deferred`,
         act = `(fire v)` | `(fail e)` | `stop` | `noop` | `addsel` | `(setsig s h)` | `(reenter T|F)`
@@ -11,6 +11,14 @@ Trace : `(obs …)`, obs = `(run result ((t lbl) …) (result …) (junk …) pe
         | `(cleared (junk …))` | `(sigs (sig …))`, lbl = n | `timeout`, junk = `(call lbl)` | `(sel n)` -/
 namespace TTV.Drv.C15
 open TTV TTV.Sexp TTV.Reactor TTV.Spinner
+
+/-- child = `noop` | `addsel` | `(spawn d child)`; nested at most `fuel` deep -/
+def childF : Nat → Sexp → Option Child
+  | 0, _ => none
+  | _ + 1, .atom "noop" => some .noop
+  | _ + 1, .atom "addsel" => some .addSel
+  | n + 1, .list [.atom "spawn", d, c] => do some (.spawn (← nat? d) (← childF n c))
+  | _ + 1, _ => none
 
 def act? : Sexp → Option Act
   | .list [.atom "fire", v] => (nat? v).map .fire
@@ -20,6 +28,7 @@ def act? : Sexp → Option Act
   | .atom "addsel" => some .addSel
   | .list [.atom "setsig", s, h] => do some (.setSig (← nat? s) (← nat? h))
   | .list [.atom "reenter", b] => (bool? b).map .reenter
+  | .list [.atom "spawn", d, c] => do some (.spawn (← nat? d) (← childF 16 c))
   | .list [.atom "fireold", k, v] => do some (.late false (← nat? k) (← nat? v))
   | .list [.atom "failold", k, e] => do some (.late true (← nat? k) (← nat? e))
   | _ => none
@@ -35,11 +44,25 @@ def term? : Sexp → Option Term
   | .atom "deferred" => some .deferred
   | _ => none
 
+def isSpawn : Act → Bool
+  | .spawn _ _ => true
+  | _ => false
+
+/-- the domain of `spawn` (see `Act.spawn`): only in runs whose `f` returns or raises synchronously, and only as a delayed call -/
+def wellFormed (sc : Scen) : Bool :=
+  let delayedSpawn := sc.pre.any (fun p => isSpawn p.2) || sc.body.any (fun | .later _ a => isSpawn a | .now _ => false)
+  let nowSpawn := sc.body.any (fun | .now a => isSpawn a | .later _ _ => false)
+  !nowSpawn && (!delayedSpawn || sc.term != .deferred)
+
+def scen? (t pre body term : Sexp) (oblig : Nat) : Option Scen := do
+  let sc : Scen ← match t with
+    | .atom "neg" => do some { timeout := 0, bad := true, oblig := oblig, pre := ← list? (pair? nat? act?) pre, body := ← list? op? body, term := ← term? term }
+    | t => do some { timeout := ← nat? t, oblig := oblig, pre := ← list? (pair? nat? act?) pre, body := ← list? op? body, term := ← term? term }
+  if wellFormed sc then some sc else none
+
 def step? : Sexp → Option Step
-  | .list [.atom "run", .atom "neg", pre, body, term] => do
-      some (.run { timeout := 0, bad := true, pre := ← list? (pair? nat? act?) pre, body := ← list? op? body, term := ← term? term })
-  | .list [.atom "run", t, pre, body, term] => do
-      some (.run { timeout := ← nat? t, pre := ← list? (pair? nat? act?) pre, body := ← list? op? body, term := ← term? term })
+  | .list [.atom "run", t, pre, body, term] => (scen? t pre body term 0).map .run
+  | .list [.atom "run", t, pre, body, term, n] => do some (.run (← scen? t pre body term (← nat? n)))
   | .atom "clear" => some .clearJunk
   | .list [.atom "setsig", s, h] => do some (.setSig (← nat? s) (← nat? h))
   | .atom "swap" => some .swap
